@@ -34,16 +34,16 @@ var aProfiles = map[string]aProfile{
 
 const pKeyShortUpd = "C07:expired-terms-record-skipped-at-load"
 
-var pKnownShortUpd = vIsKnown(pKeyShortUpd)
+var pKnownShortUpd = vIsKnownSuffix("expired-terms-record-skipped-at-load")
 var pShortUpdExcluded int
 
 const pKeyLateDepth = "C07:depth-lost-when-persisted-after-relock"
 
-var pKnownLateDepth = vIsKnown(pKeyLateDepth)
+var pKnownLateDepth = vIsKnownSuffix("depth-lost-when-persisted-after-relock")
 
 const pKeyUpdCreate = "C07:compaction-drops-creating-record-with-update-flag"
 
-var pKnownUpdCreate = vIsKnown(pKeyUpdCreate)
+var pKnownUpdCreate = vIsKnownSuffix("compaction-drops-creating-record-with-update-flag")
 var pUpdCreateExcluded int
 
 func pct(t *rapid.T, label string) int { return rapid.IntRange(0, 99).Draw(t, label) }
@@ -412,7 +412,7 @@ type aOutcome struct {
 	panic string
 }
 
-func aSafe(e *aEnv, f func()) (msg string) {
+func aSafe(_ *aEnv, f func()) (msg string) {
 	defer func() {
 		if r := recover(); r != nil {
 			msg = fmt.Sprintf("panic: %v\n%s", r, vRepoFrames())
